@@ -367,6 +367,22 @@ func edgeFact(b *ssa.BasicBlock, i int) (text string, truth bool, ok bool) {
 type Assume struct {
 	Match func(text string) bool
 	Truth bool
+	Eval  func(text string) (truth, applies bool) // optional: per-condition truth (overrides Match/Truth)
+}
+
+// assumeTypeIs: every test of a stored record's FixedHeader.Type against a constant is decided as if the type were k.
+func assumeTypeIs(k int) Assume {
+	return Assume{Eval: func(t string) (bool, bool) {
+		i := strings.LastIndex(t, ".FixedHeader.Type == ")
+		if i < 0 {
+			return false, false
+		}
+		var n int
+		if _, err := fmt.Sscanf(t[i+len(".FixedHeader.Type == "):], "%d", &n); err != nil {
+			return false, false
+		}
+		return n == k, true
+	}}
 }
 
 func assumeEq(text string, truth bool) Assume {
@@ -382,6 +398,12 @@ func edgeAllowed(b *ssa.BasicBlock, i int, as []Assume) bool {
 		return true
 	}
 	for _, a := range as {
+		if a.Eval != nil {
+			if want, applies := a.Eval(t); applies && want != truth {
+				return false
+			}
+			continue
+		}
 		if a.Match(t) && a.Truth != truth {
 			return false
 		}
